@@ -90,3 +90,10 @@ P['C04'] = dict(
     assumptions=_pub_assume[:2] + ['broker model is a conformant MQTT sender: DUP retransmission of unacknowledged PUBLISH and of PUBREL only after a reconnect with Session Present 1'],
     jobs=[dict(name='inbound', tu='harness/w_recv.cpp', entry='h_recv', engine='B', clock=True, defs={'VK_MSGS': 2}, defs_quick={'VK_STEPS': 6}, defs_thorough={'VK_STEPS': 8},
                reach=['qos0-delivered', 'qos1-delivered', 'qos2-delivered', 'pubrel-sent', 'pubcomp-received', 'session-lost', 'session-resumed', 'publish-retransmitted', 'pubrel-retransmitted', 'write-lost-in-flight'], samples=10)])
+
+P['C05'] = dict(
+    level_text='On the real mqtt_client: up to 3 operations (publish QoS 0/1/2, subscribe, unsubscribe, a request rejected by validation) plus async_run and async_receive, interleaved with write completions, broker answers, per-operation cancellation (total and terminal), cancel(), async_disconnect (DISCONNECT written or not: then the 5 s timer fires), destruction and connection loss in every order up to the step bound, followed by async_run again. Monitors: every handler at most once and never inside the initiating call; after a stop every operation including async_run and async_receive has completed, the handler queue is empty, no socket/resolver operation is pending and no timer is armed.',
+    level_note='Bounds: 3 operations, 5 (quick) / 6 (thorough) steps. "Runs out of work" is observed on the stub world: empty handler queue, no pending socket/resolver operation, no armed timer.',
+    assumptions=_pub_assume[:2],
+    jobs=[dict(name='completion_once_and_drain', tu='harness/w_cancel.cpp', entry='h_cancel', engine='B', clock=True, defs={'VK_OPS': 3}, defs_quick={'VK_STEPS': 5}, defs_thorough={'VK_STEPS': 6},
+               reach=['answered', 'cancel', 'disconnect', 'destroyed', 'terminal-signal', 'drained', 'restarted', 'invalid-request'], samples=10)])
